@@ -121,6 +121,9 @@ def fixed_cases(tier):
         out.append({"prog": {"src": s, "mode": "exec", "optimize": 0, "min_version": 7},
                     "steps": [["code_roundtrip", None], ["json_roundtrip", None], ["normalize", None], ["code_roundtrip", None],
                               ["renormalize_twice", None], ["json_roundtrip", None]]})
+    for s in gen_source.jump_cascade_sources():
+        out.append({"prog": {"src": s, "mode": "exec", "optimize": 0, "min_version": 7},
+                    "steps": [["normalize", None], ["code_roundtrip", None], ["code_roundtrip", None]]})
     if tier == "thorough":
         for i in range(39, 1760, 2):
             out.append({"case": {"corpus": i, "optimize": 0}, "recipes": [FULL, HALF], "min_version": 7, "_label": "variants_corpus"})
@@ -148,4 +151,4 @@ def replay(ctx, rec):
 
 
 def wall_budget(tier):
-    return 70.0 if tier == "quick" else 1500.0
+    return 50.0 if tier == "quick" else 1500.0
